@@ -4,6 +4,7 @@ import CelloGen.CmpLoops
 import Driver.Common
 /- driver for engine `cmp` (C09).  Op file (values are prefix terms, one token each, see harness/h_cmp.c):
      cmp  <A> <B>          sign of cmp(A,B) and cmp(B,A) and the six predicates, as GENERATED from src/Cmp.c
+     (`cmp.n` / `cmp.s`, likewise `lcmp`, `tri`: allocation class of the operands in the harness; ignored here)
      lcmp <A> <B>          one direction only: sign of cmp(A,B) and the six predicates
      `&n <term>` names the object built from <term>, `*n` is that object again (one object in two Tuple slots, in both
      operands, as both operands); the loops are run on the object graph (`objCmpF`) under the traversal discipline read
@@ -128,7 +129,10 @@ partial def parseObj (st : PState) (toks : List String) : Option (Slot × PState
       | some bs => if bs.contains 0 then none else fresh (.val (.str bs)) st rest
       | none => none
     | 't' :: n => let name := String.ofList n
-      if typeNames.contains name then fresh (.val (.typ name.toUTF8.toList)) st rest else none
+      -- there is ONE object per Type: its identity is fixed by the name (the same Type in two slots of a Tuple is the same object twice)
+      match typeNames.findIdx? (· == name) with
+      | some i => some ((1000000 + i, .val (.typ name.toUTF8.toList)), st, rest)
+      | none => none
     | 'p' :: d :: ':' :: h => match parseHexBytes h with
       | some bs => if '0' ≤ d ∧ d ≤ '9' then fresh (.val (.plain (d.toNat - '0'.toNat) bs)) st rest else none
       | none => none
@@ -285,11 +289,22 @@ def doLcmp (a b : Obj) : IO Unit := do
 def sameScalarKind (vs : List Val) : Bool :=
   vs.all (fun v => v.valid && v.ctype ≤ 2) && allSame (vs.map Val.ctype)
 
+/-- `cmp.n`, `lcmp.s`, `tri.n` …: the suffix selects how the HARNESS allocates the operands (`.n` = `new_root`, collector-managed;
+    `.s` = stack class: scalars and Tuples carry the header of a `$(…)` object); `cmp` does not look at the allocation class,
+    so the model ignores it -/
+def baseOp (ws : List String) : List String :=
+  match ws with
+  | op :: rest =>
+    match op.splitOn "." with
+    | [b, sfx] => if (sfx == "n" || sfx == "s") && (b == "cmp" || b == "lcmp" || b == "tri") then b :: rest else ws
+    | _ => ws
+  | [] => []
+
 def main (args : List String) : IO Unit := do
   let lines ← Driver.inputLines args
   for l in lines do
     if Driver.isSkippable l then continue
-    match Driver.words l with
+    match baseOp (Driver.words l) with
     | "cmp" :: rest =>
       match parseAllObj {} rest [] with
       | some [(_, a), (_, b)] => if runnableObj a b then doCmp a b else IO.println "O bad-op"
